@@ -4,15 +4,23 @@
 
 package rsyncwire
 
+// C15: the integer decoders against the byte stream of the connection's reader
+// (protocol 27: one byte; 32-bit little endian; a 64-bit value is sent as a
+// 32-bit value if it is in 0..0x7fffffff, otherwise as 0xffffffff followed by
+// 64 bits little endian).
 //@ func (*rsyncwire.Conn).ReadByte
-//@   modifies rsyncwire.CountingReader.BytesRead
+//@   modifies rsyncwire.CountingReader.BytesRead, ghost.rpos
 //@   ensures 0 <= result && result <= 255
+//@   ensures[C15] [next-byte] err == nil ==> result == wireByte(data(c.Reader), old(select(ghost.rpos, data(c.Reader)))) && ghost.rpos == store(old(ghost.rpos), data(c.Reader), old(select(ghost.rpos, data(c.Reader))) + 1)
 
 //@ func (*rsyncwire.Conn).ReadInt32
-//@   modifies rsyncwire.CountingReader.BytesRead
+//@   modifies rsyncwire.CountingReader.BytesRead, ghost.rpos
+//@   ensures[C15] [little-endian-int32] err == nil ==> result == wrap32s(le32At(data(c.Reader), old(select(ghost.rpos, data(c.Reader))))) && ghost.rpos == store(old(ghost.rpos), data(c.Reader), old(select(ghost.rpos, data(c.Reader))) + 4)
 
 //@ func (*rsyncwire.Conn).ReadInt64
-//@   modifies rsyncwire.CountingReader.BytesRead
+//@   modifies rsyncwire.CountingReader.BytesRead, ghost.rpos
+//@   ensures[C15] [protocol-27-int64] err == nil ==> result == ite(wrap32s(le32At(data(c.Reader), old(select(ghost.rpos, data(c.Reader))))) != -1, wrap32s(le32At(data(c.Reader), old(select(ghost.rpos, data(c.Reader))))), wrap64s(le64At(data(c.Reader), old(select(ghost.rpos, data(c.Reader))) + 4)))
+//@   ensures[C15] [bytes-consumed] err == nil ==> ghost.rpos == store(old(ghost.rpos), data(c.Reader), old(select(ghost.rpos, data(c.Reader))) + ite(wrap32s(le32At(data(c.Reader), old(select(ghost.rpos, data(c.Reader))))) != -1, 4, 12))
 
 //@ func (*rsyncwire.Conn).WriteByte
 //@   modifies rsyncwire.CountingWriter.BytesWritten
@@ -20,8 +28,12 @@ package rsyncwire
 //@   modifies rsyncwire.CountingWriter.BytesWritten, ghost.int32sWritten
 // (definition of the ghost counter, not a property of the body)
 //@   ensures[ghostdef] [counted] ghost.int32sWritten == old(ghost.int32sWritten) + 1
+//@ func (*rsyncwire.Conn).WriteInt32
+//@   ensures[C15] [int32-token] err == nil ==> ghost.acc == store(old(ghost.acc), data(c.Writer), accApp(select(old(ghost.acc), data(c.Writer)), valEnc(typeid("int32"), data)))
 //@ func (*rsyncwire.Conn).WriteInt64
-//@   modifies rsyncwire.CountingWriter.BytesWritten
+//@   modifies rsyncwire.CountingWriter.BytesWritten, ghost.acc, ghost.int32sWritten
+//@   ensures[C15] [protocol-27-int64] err == nil && 0 <= data && data <= 2147483647 ==> ghost.acc == store(old(ghost.acc), data(c.Writer), accApp(select(old(ghost.acc), data(c.Writer)), valEnc(typeid("int32"), data)))
+//@   ensures[C15] [protocol-27-int64-long] err == nil && !(0 <= data && data <= 2147483647) ==> ghost.acc == store(old(ghost.acc), data(c.Writer), accApp(accApp(select(old(ghost.acc), data(c.Writer)), valEnc(typeid("int32"), -1)), valEnc(typeid("int64"), data)))
 //@ func (*rsyncwire.Conn).WriteString
 //@   modifies rsyncwire.CountingWriter.BytesWritten
 
